@@ -475,6 +475,12 @@ func genStress(rng *hx.Rng, kind string, scale int) string {
 		return fmt.Sprintf("stress evict %d %d", it(10, 60), seed)
 	case "evictsame":
 		return fmt.Sprintf("stress evictsame %d 8 %d", rng.Range(50, 400), seed)
+	case "dvzero":
+		return genDVZero(rng)
+	case "stack", "stackforced", "stackvar", "stacksorted":
+		return genStack(rng, kind)
+	case "evictmax":
+		return fmt.Sprintf("stress evictmax %d %d %d", rng.Range(100, 300), rng.Range(2, 6), seed)
 	}
 
 	return fmt.Sprintf("stress wg %d %d %d", rng.Range(2, 4), it(20, 300), seed)
@@ -541,6 +547,19 @@ func main() {
 		{"ev new f64", "ev event -3", "ev evict -2", "ev event -3", "ev evict 4"},
 		// concurrent EvictionEvent callers per fresh slot must share one event (GetOrCreate must re-check under its lock)
 		{"stress evictsame 4000 8 1"},
+		// a writer clears a later input while the constructor of a DerivedVariable sits in its first computation (sixth
+		// seeded round: every subscription - the last one above all - must trigger also for the zero value), every arity,
+		// int / bool / string inputs
+		{"stress dvzero lin int 1,5 1 1:0", "stress dvzero lin int 1,0,7 1 2:0", "stress dvzero lin mix 1,1,0,0 1 1:0", "stress dvzero lin mix 1,0,7 1 2:0",
+			"stress dvzero lin int 1,5,2 2 2:0", "stress dvzero lin int 0,0,0,9 1 3:0", "stress dvzero lin int 1,2,3,4 3 3:0", "stress dvzero firstnz int 0,5 1 1:0",
+			"stress dvzero lin int 3 1 0:0", "stress dvzero lin int 1,5 1 1:0,0:0", "stress dvzero lin int 1,5 2 0:0", "stress dvzero lin mix 1,1 1 1:0"},
+		// derived objects fed by derived objects: writer 1 parked inside its notification of the intermediate node's
+		// subscribers while writer 2 makes the inverse change (a write path that notifies outside of its write mutex lets the
+		// two notifications overtake each other)
+		{"stress stackforced ds-sub 0 1", "stress stackforced ds-sub 1 2", "stress stackforced ds-sub 2 3", "stress stackforced ds-ds 0 1", "stress stackforced ds-ds 1 4",
+			"stress stackforced ds-ds-sub 0 2", "stress stackforced sub-sub 0 1", "stress stackforced sub-ds 0 5", "stress stackforced ds-sub-sub 1 1"},
+		// evictors released together with different slots: the last evicted slot must be the maximum
+		{"stress evictmax 3000 4 1", "stress evictmax 1500 2 2", "stress evictmax 1000 8 3"},
 	}
 	for _, c := range corpus {
 		runCase(r, 0, c)
@@ -570,12 +589,16 @@ func main() {
 			runCase(r, uint64(n), []string{fmt.Sprintf("stress sizes %s %d %d", c, n, r.Seed+uint64(i))})
 		}
 	}
-	kinds := []string{"dvar", "dvar", "inherit", "dset", "sub", "counter", "sorted", "sorted", "sortedrace", "evict", "evictsame", "wg"}
+	kinds := []string{"dvar", "dvar", "inherit", "dset", "sub", "counter", "sorted", "sorted", "sortedrace", "evict", "evictsame", "wg", "dvzero", "dvzero", "evictmax", "stack", "stack", "stackvar", "stacksorted"}
 	nstress := 150 * r.Scale
 	if r.Scale > 1 {
 		nstress *= 4 // thorough: spend the budget on interleavings
 	}
 	for i := 0; i < nstress; i++ {
+		if i%10 == 0 { // forced schedules wait for a writer that (on correct code) is blocked: few of them
+			rng, sub := r.Rng.Fork()
+			runCase(r, sub, []string{genStress(rng, "stackforced", r.Scale)})
+		}
 		for _, k := range kinds {
 			rng, sub := r.Rng.Fork()
 			runCase(r, sub, []string{genStress(rng, k, r.Scale)})
